@@ -734,9 +734,22 @@ fn issue_and_check(s: &mut Suite, origin: &str, der: &[u8], parsed: CertificateS
 	let mut clauses: Vec<String> = Suite::parse_fail_pub(&resp);
 	if clauses.iter().any(|c| c == "C06:extension-request-decodes") {
 		// not DER inside the extension request, yet taken by the third-party parser: the tolerant reader decides
-		if let Some(l) = lenient_issue_check(der, cert.der()) {
+		// (Spec/Ber.lean `c06IssueClausesBer`, proved to read DER as the strict decoder does; the
+		// harness's own walker is kept as a second reader of the same rule)
+		let resp2 = s.drv.ask(&format!("spec-csr-issue-ber {} {}", hex(der), hex(cert.der())));
+		if resp2 != "unreadable" && !resp2.starts_with("bad-op") {
 			s.rep.count("issued_vs_request_compared_by_tolerant_reader");
-			clauses = l.into_iter().map(|c| format!("{}:tolerant-reader", c)).collect();
+			let mut lean: Vec<String> = Suite::parse_fail_pub(&resp2);
+			if let Some(mut l) = lenient_issue_check(der, cert.der()) {
+				l.sort();
+				l.dedup();
+				lean.sort();
+				lean.dedup();
+				if l != lean {
+					s.rep.disagree("C06:tolerant-reader", "the specification's tolerant reader and the harness's walker differ on what a request asks for", format!("origin={}\ncsr={}\ncert={}\nspecification: {:?}\nharness: {:?}", origin, hex(der), hex(cert.der()), lean, l));
+				}
+			}
+			clauses = lean.into_iter().map(|c| format!("{}:tolerant-reader", c)).collect();
 		}
 	}
 	for clause in clauses {
